@@ -246,6 +246,8 @@ def rand_close(rnd):
     code = rnd.choice((1000, 1001, 1002, 1003, 1007, 1008, 1009, 1010, 1011, 3000, 3999, 4000, 4999))
     if r < 0.5:
         return dict(k='close', code=code, reason='')
+    if r < 0.6:
+        return dict(k='close', code=code, reason=rnd.choice(('{0} {} }{ %s %(x)s', '{"error": {"code": 7}}', '{', '}', '{reason!r}', '%d%%')))
     if r < 0.75:
         return dict(k='close', code=code, reason=text_of_len(rnd, 123).decode('utf-8'))
     return dict(k='close', code=code, reason=rand_text(rnd, rnd.randint(1, 20)))
